@@ -24,7 +24,16 @@ def install(v):
     h["attr:DataObj.uuid"] = lambda ex, p, args, kw, node: [(p, Opq("UUID", UUID_OF_D(args[0].t)))]
     h["attr:AoefObj.uuid"] = lambda ex, p, args, kw, node: [(p, Opq("UUID", UUID_OF_A(args[0].t)))]
     # the two abstract methods: some function of their arguments (each concrete adapter's bodies are C01's obligations)
-    h[f"method:{CLS}.assemble_aoef"] = lambda ex, p, args, kw, node: [(p, Opq("AoefObj", ASM_A(args[1].t, args[2].t)))]
+    def assemble_aoef(ex, p, args, kw, node):
+        # parents before children: while an object is being assembled (its dependencies are converted and stored by the concrete
+        # adapters at this point) the object itself is not yet in the AOEF store, so it is listed after them
+        selfv, obj, oid = args
+        store = (p.heap or {}).get(selfv.ident, {}).get("_aoef_store")
+        if not ex.module.name.startswith("contracts."):     # the code's call, not the specification's own mention of the function
+            ex.side.append((f"object-not-stored-before-it-is-assembled@{ex.module.name}:{getattr(node, 'lineno', 0)}", list(p.cond),
+                            z3.Not(ex.contains(store, oid, p, node))))
+        return [(p, Opq("AoefObj", ASM_A(obj.t, oid.t)))]
+    h[f"method:{CLS}.assemble_aoef"] = assemble_aoef
     h[f"method:{CLS}.assemble_soundevent"] = lambda ex, p, args, kw, node: [(p, Opq("DataObj", ASM_D(args[1].t)))]
     return v
 
